@@ -1,3 +1,4 @@
+import Rink.Model.CtxCheck
 import Rink.Driver.Common
 import Rink.Model.Pretty
 import Rink.Driver.Digits
@@ -198,6 +199,15 @@ partial def loop (h out : IO.FS.Stream) (s : Sess) : IO Unit := do
   | _ =>
     out.putStrLn "bad-op"
     loop h out s
+
+/-- `ctxok DUMP`: the database facts of C04 on the real registry -/
+def ctxokMain (dumpPath : String) : IO Unit := do
+  let text ← IO.FS.readFile dumpPath
+  let d := (text.splitOn "\n").foldl Dump.addLine {}
+  let ctx : Ctx := { reg := d.toRegistry }
+  let subs := d.subst.toList
+  let bad := subs.filter fun (_, s) => !Rink.Spec.C04.substOKb s
+  IO.println s!"ctxok degrees={Rink.Spec.C04.degreesOKb ctx} substances={bad.isEmpty} checked={subs.length}"
 
 def main (dumpPath : String) : IO Unit := do
   let text ← IO.FS.readFile dumpPath
